@@ -166,9 +166,21 @@ CasesJsonOverlap ==
              <<JsonC(<<F("a"), I(1)>>, "text", ""), JsonC(<<F("a")>>, "arr", "text"), JsonC(<<F("a"), I(1)>>, "text", "")>>},
      d \in {JObj(<<<<"a", JStr(tAbc)>>>>), JObj(<<<<"a", JArr(<<JStr(tAbc), JStr(t12)>>)>>>>)}}
 
+\* the admission rule (C06) over tables that mix JSON and regex columns: NOT NULL in every position -- before, at and after the first JSON column --
+\* on lines where exactly that column has no value while another one has
+J1 == JsonC(<<F("a")>>, "int", "")
+J2 == JsonC(<<F("b")>>, "int", "")
+AdmitOrders == {<<J1, J2, TagCol>>, <<J1, TagCol>>, <<TagCol, J1, J2>>, <<J1, J2>>, <<TagCol, J1>>, <<J2, TagCol, J1>>}
+NnAt(cols, i) == [j \in 1..Len(cols) |-> IF j = i THEN JWith(cols[j], "nn") ELSE cols[j]]
+CasesAdmit ==
+  {c \in {[cols |-> NnAt(o, i), line |-> JLine(d, tag, 0)] : o \in AdmitOrders, i \in 1..3, tag \in {NoGroup, G(t12)},
+           d \in {JObj(<<>>), JObj(<<<<"a", JNum(IntV(5))>>>>), JObj(<<<<"b", JNum(IntV(3))>>, <<"a", JNum(IntV(4))>>>>), JObj(<<<<"b", JNum(IntV(3))>>>>), JObj(<<<<"a", JNull>>, <<"b", JNum(IntV(1))>>>>)}} :
+     Len(c.cols) >= 2}
+  \cup {[cols |-> NnAt(o, i), line |-> JLine(NoDoc, tag, k)] : o \in AdmitOrders, i \in 1..3, tag \in {NoGroup, G(t12)}, k \in 1..2}
+
 Cases == (IF "types" \in CaseSets THEN CasesTypes ELSE {}) \cup (IF "rows" \in CaseSets THEN CasesRows \cup CasesTwoNotNull ELSE {})
          \cup (IF "ts" \in CaseSets THEN CasesTs ELSE {}) \cup (IF "arrays" \in CaseSets THEN CasesArrays \cup CasesCross \cup CasesSplitOrder ELSE {})
-         \cup (IF "split" \in CaseSets THEN CasesSplit ELSE {})
+         \cup (IF "split" \in CaseSets THEN CasesSplit ELSE {}) \cup (IF "admit" \in CaseSets THEN CasesAdmit ELSE {})
          \cup (IF "jsonleaf" \in CaseSets THEN CasesJsonLeaf ELSE {}) \cup (IF "jsonpath" \in CaseSets THEN CasesJsonPath \cup CasesJsonLayout \cup CasesJsonOverlap ELSE {})
 
 VARIABLE cs
